@@ -1,44 +1,32 @@
-"""one-off: (re)write the `known` C19 entries of known_findings.json; the witness is replayed on
-the real code here (deterministic scheduler)"""
+"""one-off: (re)write the C19 entry `concurrent-delete-keyerror` of known_findings.json.
+
+The finding is repaired in the library (a0040b0: `Collection._delete` removes through
+`CollectionStore.discard`, which tells whether it removed a document): the entry is a `fixed`
+record.  Its witness — two `delete_one` of the same document, the first preempted between reading
+and deleting — is kept (with the log recorded on the unrepaired library) and is re-run by every
+check of C19 (props/c19.py): if anything at all goes wrong in it again, that is a VIOLATION.
+Run against the repaired library: the witness must not reproduce here."""
 import json, os, sys
 sys.path.insert(0, os.path.dirname(os.path.abspath(__file__)))
 import wire
 import c19_iter_probe
 
-k, res = c19_iter_probe.delete_delete_witness()
-assert k is not None, 'the witness no longer reproduces'
-entry = {
-    'property': 'C19', 'id': 'concurrent-delete-keyerror', 'status': 'known',
-    'what': 'two threads deleting the same document: Collection._delete reads the documents to '
-            'delete (list(self._iter_documents(filter))) and then does `del self._store[doc_id]`; '
-            'when another thread (delete_one / delete_many / a TTL expiry pass) removes the '
-            'document between the two, the `del` raises KeyError(doc_id) out of delete_one / '
-            'delete_many instead of the call reporting deleted_count 0',
-    'witness': {
-        'iter_probe_witness': 'delete_delete', 'k': k,
-        'setup': 'c = mongomock.MongoClient().db.c; ' + c19_iter_probe.SETUPS['plain'][1],
-        'thread 0': "c.delete_one({'_id': 2})", 'thread 1': "c.delete_one({'_id': 2})",
-        'schedule': 'thread 0 runs %d steps (it has read the collection and left its read '
-                    'section), then thread 1 runs to completion, then thread 0 continues' % k,
-        'what_happened': res['story'],
-        'python': 'KeyError: 2 in thread 0', 'spec': 'both calls return (deleted_count 1 and 0)',
-        'plain_threads': (
-            "import mongomock, threading\nfrom unittest import mock\n"
-            "c = mongomock.MongoClient().db.c; c.insert_one({'_id': 2})\n"
-            "real = type(c)._iter_documents; first = threading.Event(); go = threading.Event()\n"
-            "def iter_documents(self, flt):\n    docs = list(real(self, flt))\n"
-            "    if threading.current_thread().name == 'A':\n        first.set(); go.wait(5)\n"
-            "    return iter(docs)\n"
-            "with mock.patch.object(type(c), '_iter_documents', iter_documents):\n"
-            "    t = threading.Thread(target=c.delete_one, args=({'_id': 2},), name='A')\n"
-            "    t.start(); first.wait(5); c.delete_one({'_id': 2}); go.set(); t.join()\n"
-            "# thread A dies with KeyError: 2"),
-    },
-}
+COMMIT = 'a0040b0'
+k, res = c19_iter_probe.delete_delete_witness(any_problem=True)
+assert k is None, 'the witness still goes wrong on this library: %r' % (res['problems'],)
 path = os.path.join(wire.VERIF, 'known_findings.json')
 data = json.load(open(path))
-data['findings'] = [x for x in data['findings']
-                    if not (x['property'] == 'C19' and x['id'] == entry['id'])]
-data['findings'].append(entry)
+old = [x for x in data['findings']
+       if x['property'] == 'C19' and x['id'] == 'concurrent-delete-keyerror'][0]
+witness = dict(old['witness'])
+witness['lean'] = ('Props.C19.unrepaired_delete_race (scan + `del store[2]` twice: the second `del` '
+                   'raises KeyError under deleteRaceSchedule) / deleters_never_fail, '
+                   'repaired_delete_race_gone, pop_never_raises (scan + discard: no schedule, any '
+                   'number of threads, makes a deleter fail)')
+witness['spec'] = 'both calls return; deleted_count 1 and 0'
+entry = {'property': 'C19', 'id': old['id'], 'status': 'fixed', 'what': old['what'],
+         'witness': witness, 'commit': COMMIT,
+         'fixed': 'fixed: property=C19 %s %s' % (COMMIT, old['what'])}
+data['findings'] = [entry if x is old else x for x in data['findings']]
 json.dump(data, open(path, 'w'), indent=1)
-print('written', entry['id'], 'k =', k)
+print('written', entry['id'], 'as fixed by', COMMIT)
